@@ -56,6 +56,7 @@ def _replace_after(cfg, du, n, path_expr):
       desc="vdir: a member file is only ever replaced atomically (write to <member>.tmp, then os.replace) or unlinked")
 def a1(ctx):
     obs = []
+    facts(ctx)
     fi = ctx.own_method(VDIR, "import_one")
     cfg = ctx.cfg(fi)
     du = DefUse(cfg)
@@ -100,6 +101,7 @@ def a1(ctx):
            "which no reader uses, is the one exception)")
 def a2(ctx):
     obs = []
+    facts(ctx)
     exceptions = {"xandikos.store.git.TreeGitStore._import_one": "working-tree copy; readers use index + object store (B2)"}
     n = 0
     for m in STORE_MODULES + ("xandikos.store.config", "xandikos.store", "xandikos.store.index"):
@@ -329,6 +331,7 @@ def a3(ctx):
         hidden |= {v for k, v in hiding_predicates(ctx, lf, y) if k == "endswith"}
     obs = []
     n = 0
+    facts(ctx)
     for f in ctx.P.cls(VDIR).methods.values():
         for fn in [f] + list(f.locals.values()):
             cfg = ctx.cfg(fn)
@@ -345,10 +348,12 @@ def a3(ctx):
                 shape = "?"
                 for e in exprs:
                     for x in ast.walk(e):
-                        if isinstance(x, ast.BinOp) and isinstance(x.op, ast.Add) and isinstance(x.right, ast.Constant) and isinstance(x.right.value, str):
-                            shape = "<name> + %r" % x.right.value
-                            if x.right.value in hidden:
-                                ok = True
+                        if isinstance(x, ast.BinOp) and isinstance(x.op, ast.Add):
+                            rv = x.right.value if isinstance(x.right, ast.Constant) else ctx.P.try_fold(fn.module, x.right)
+                            if isinstance(rv, str):
+                                shape = "<name> + %r" % rv
+                                if rv in hidden:
+                                    ok = True
                         if isinstance(x, ast.BinOp) and isinstance(x.op, ast.Add) and isinstance(x.left, ast.Constant) and isinstance(x.left.value, str) and x.left.value not in ("",):
                             if not isinstance(x.right, ast.Constant):
                                 shape = "%r + <name>" % x.left.value
